@@ -72,6 +72,8 @@ class MixedUnitaryChannel(raw_types.Gate):
             return NotImplemented
         if self._key != other._key:
             return False
+        if len(self._mixture) != len(other._mixture) or self._num_qubits != other._num_qubits:
+            return False
         if not np.allclose([m[0] for m in self._mixture], [m[0] for m in other._mixture]):
             return False
         return np.allclose(
